@@ -15,3 +15,45 @@ Theorem C19_ritz_value_bounded_by_spectral_radius :
   `|theta| <= rho.
 Proof. move=> F n k A V Vo rho Hr y th Hy H0. exact: (ritz_le_rho Vo Hr Hy H0). Qed.
 Print Assumptions C19_ritz_value_bounded_by_spectral_radius.
+
+(* ---- utility kernels (Stdlib part of the development) ---- *)
+From Coq Require Import ZArith List.
+Require Import PV.Base.Ops PV.Model.Utils PV.Proofs.UtilsProofs.
+Local Close Scope ring_scope.
+Local Open Scope Z_scope.
+
+(* scale_rows on CSC storage: data entry i is multiplied by the scale of ITS ROW index, nothing else changes;
+   any scalar type, any matrix size *)
+Theorem C19_csc_scale_rows_is_diagonal_product : forall F (o : Ops F) ncol Ap Aj (Ax Xx : list F),
+  (0 <= gI Ap ncol <= Z.of_nat (length Ax))%Z ->
+  let ax' := csc_scale_rows o ncol Ap Aj Ax Xx in
+  length ax' = length Ax /\
+  (forall i, (0 <= i < gI Ap ncol)%Z -> gV o ax' i = mul o (gV o Ax i) (gV o Xx (gI Aj i))) /\
+  (forall i, (gI Ap ncol <= i)%Z -> gV o ax' i = gV o Ax i).
+Proof. exact (fun F o => csc_scale_rows_spec o). Qed.
+Print Assumptions C19_csc_scale_rows_is_diagonal_product.
+
+(* scale_columns on CSC storage: every entry of column c is multiplied by the scale of column c (column
+   pointer starting at 0 and non-decreasing) *)
+Theorem C19_csc_scale_columns_is_diagonal_product : forall F (o : Ops F) (ncol : nat) Ap (Ax Xx : list F),
+  gI Ap 0 = 0%Z -> (forall c, (0 <= c < Z.of_nat ncol)%Z -> (gI Ap c <= gI Ap (c + 1))%Z) ->
+  (gI Ap (Z.of_nat ncol) <= Z.of_nat (length Ax))%Z ->
+  let ax' := csc_scale_columns o (Z.of_nat ncol) Ap Ax Xx in
+  length ax' = length Ax /\
+  (forall c jj, (0 <= c < Z.of_nat ncol)%Z -> (gI Ap c <= jj < gI Ap (c + 1))%Z -> gV o ax' jj = mul o (gV o Ax jj) (gV o Xx c)) /\
+  (forall jj, (gI Ap (Z.of_nat ncol) <= jj)%Z -> gV o ax' jj = gV o Ax jj).
+Proof. exact (fun F o => csc_scale_columns_spec o). Qed.
+Print Assumptions C19_csc_scale_columns_is_diagonal_product.
+
+(* filtering relative to the diagonal (no lumping): in row r exactly the entries with |a| < theta |a_rr| are set
+   to zero, where a_rr is the first stored diagonal entry of the row (threshold 0 if none); valid CSR of any size *)
+Theorem C19_filter_matrix_rows_definition : forall F (o : Ops F) (n : nat) theta Ap Aj (Ax : list F),
+  gI Ap 0 = 0%Z -> (forall r, (0 <= r < Z.of_nat n)%Z -> (gI Ap r <= gI Ap (r + 1))%Z) ->
+  (gI Ap (Z.of_nat n) <= Z.of_nat (length Ax))%Z ->
+  let ax' := filter_matrix_rows o (Z.of_nat n) theta Ap Aj Ax false in
+  length ax' = length Ax /\
+  (forall r jj, (0 <= r < Z.of_nat n)%Z -> (gI Ap r <= jj < gI Ap (r + 1))%Z ->
+     gV o ax' jj = if ltb o (abs o (gV o Ax jj)) (row_thr o theta Ap Aj Ax r) then zero o else gV o Ax jj) /\
+  (forall jj, (gI Ap (Z.of_nat n) <= jj)%Z -> gV o ax' jj = gV o Ax jj).
+Proof. exact (fun F o => filter_matrix_rows_spec o). Qed.
+Print Assumptions C19_filter_matrix_rows_definition.
